@@ -31,7 +31,7 @@ LENIENCIES = [
 def consts(fam, small, lean=False, auto=True, linked=True):
     b = lambda x: 'TRUE' if x else 'FALSE'     # noqa: E731
     return ({'Fam': '"%s"' % fam, 'SmallStep': b(small), 'Lean': b(lean), 'AutoIdSkipsUsed': b(auto),
-             'ImplicitMapsLinked': b(linked)}, {'Descs': 'DescsOf'})
+             'ImplicitMapsLinked': b(linked)}, {'PickDesc': 'InFam'})
 
 
 # -- the alphabet table printed by the spec (ASSUME PrintT(<<"WORLDLOAD-SHAPES", Shape>>)) ------------------
